@@ -49,6 +49,8 @@ def bnds(incls, excls) -> set:
 
 
 ONE = {(1, 1)}
+# battery bounds for the C17 scopes: consistent also when two of them sit behind one small inverter
+QB = {(-6, -2, 0, 2), (-2, 0, 2, 6), (-6, 0, 3, 6), (-4, -3, 0, 4), (-4, 0, 0, 4)}
 SMALL2 = dict(Caps2={1}, Socs2={2}, BatBnds2={(-2, 0, 0, 2), (-4, -2, 2, 4)}, InvBnds2={(-2, 0, 0, 2), (-4, -1, 1, 4), (-2, -2, 2, 2)})
 BASE = dict(UnitW=UNITW, SocLo=1, SocHi=3, SCd=SCD, Tol=TOL, **SMALL2)
 
@@ -78,14 +80,14 @@ SCOPES = {
                              Mags={1, 3, 4, 5, 7, 11}, Exps={1})),
         ],
         "bounds": [
-            ("bounds", _scope(Mode="bounds", NGroups={1, 2}, Caps={1}, Socs={2}, BatBnds=bnds({2, 4, 6}, {0, 3}),
-                              InvBnds=bnds({2, 4}, {0, 1, 2}), Shapes1={(1, 1), (1, 2), (2, 1), (2, 2)}, ShapesR={(1, 1), (1, 2)},
+            ("bounds", _scope(Mode="bounds", NGroups={1, 2}, Caps={1}, Socs={2}, BatBnds=QB,
+                              InvBnds=bnds({2, 4}, {0, 1, 2}), Shapes1={(1, 1), (1, 2), (2, 1), (2, 2)}, ShapesR={(1, 1), (2, 1)},
                               Mags=set(), Exps={1})),
         ],
         "admit": [
             # admitted requests through the whole manager path (Result must not be OutOfBounds)
-            ("admit", _scope(Mode="dist", NGroups={1, 2}, Caps={1}, Socs={3}, BatBnds=bnds({2, 6}, {0, 3}),
-                             InvBnds=bnds({2, 4}, {0, 1, 2}), Shapes1={(1, 1), (1, 2), (2, 1)}, ShapesR={(1, 1), (1, 2)},
+            ("admit", _scope(Mode="dist", NGroups={1, 2}, Caps={1}, Socs={3}, BatBnds=QB - {(-4, 0, 0, 4)},
+                             InvBnds=bnds({2, 4}, {0, 1, 2}), Shapes1={(1, 1), (1, 2), (2, 1)}, ShapesR={(1, 1), (2, 1)},
                              Mags={2, 5, 11}, Exps={1})),
         ],
     },
@@ -111,7 +113,7 @@ SCOPES = {
             ("bounds", _scope(Mode="bounds", NGroups={1, 2}, Caps={1}, Socs={2}, BatBnds=bnds({2, 4, 6}, {0, 2, 3}),
                               InvBnds=bnds({2, 4, 6}, {0, 1, 2}), Shapes1={(1, 1), (1, 2), (2, 1), (2, 2)}, ShapesR={(1, 1), (1, 2), (2, 1)},
                               Mags=set(), Exps={1})),
-            ("bounds3", _scope(Mode="bounds", NGroups={3}, Caps={1}, Socs={2}, BatBnds=bnds({2, 6}, {0, 3}),
+            ("bounds3", _scope(Mode="bounds", NGroups={3}, Caps={1}, Socs={2}, BatBnds=QB - {(-4, 0, 0, 4), (-4, -3, 0, 4)},
                                InvBnds=bnds({2, 4}, {0, 2}), Shapes1={(1, 1), (1, 2), (2, 1)}, ShapesR={(1, 1), (1, 2)},
                                Mags=set(), Exps={1})),
         ],
@@ -577,7 +579,7 @@ def _run_val(rep: Report, prop: str, work: Path, consts: dict) -> None:
 NEEDED = {
     "C01": ["nonzero_setpoint", "remainder", "supply", "beyond_incl", "multi_inverter", "multi_battery", "manager"],
     "C02": ["nonzero_setpoint", "noheadroom", "allnoheadroom", "at_excl", "at_incl", "multi_inverter", "multi_battery"],
-    "C17": ["probes", "in_advertised", "contains", "rejected", "excl_differs", "manager"],
+    "C17": ["probes", "in_advertised", "contains", "rejected", "excl_differs", "manager", "multi_inverter", "multi_battery"],
 }
 
 
@@ -607,3 +609,30 @@ def run(prop: str, tier: str) -> int:
             raise MachineryError(f"vacuity: antecedents never exercised for {prop}: {missing} ({ex})")
     rep.extra["disagreements_total"] = sum(rep.extra.get("disagreements", {}).values())
     return rep.finish(tm.s())
+
+
+def replay(prop: str, data: dict) -> int:
+    """./check <prop> --replay <file>: push the recorded input through the real code again and let TLC
+    judge it (1 = a clause of `prop` is false and no known finding explains it)."""
+    from .verdict import load_known
+
+    rec = (data.get("case") or {}).get("record")
+    if not rec:
+        print(json.dumps(data, indent=1)[:4000])
+        return 0
+    work = scratch(f"{prop}_replay")
+    case = {k: rec[k] for k in ("g", "p", "e", "hp") if k in rec}
+    path = work / "cases.ndjson"
+    path.write_text(json.dumps(case) + "\n")
+    _STAGEFILES[:] = [(path, 1, rec["kind"], "replay")]
+    rep = Report(prop, "replay")
+    _run_val(rep, prop, work, SCOPES["quick"]["dist"][0][1])
+    known = [k for k in load_known() if k["property"] == prop]
+    bad = 0
+    for f in rep.failures:
+        kf = next((k["id"] for k in known if k["clause"] == f["clause"] and k.get("deviation") in f["deviations"]), None)
+        print(("KNOWN-FINDING " + kf) if kf else "VIOLATION", f["clause"], f["deviations"], json.dumps(f["detail"])[:400])
+        bad += 0 if kf else 1
+    if not rep.failures:
+        print(f"no clause of {prop} is false on this input")
+    return 1 if bad else 0
